@@ -142,11 +142,18 @@ type c18Obs struct {
 	ConsumerDone bool
 	ProducerDone bool
 	Deadlock     bool
+	Panics       []string
 	Parked       []string
 	Trace        []string
 }
 
 func c18RunModel(x *Exec, in c18Input, policy int) c18Obs {
+	return c18RunModelAfter(x, nil, in, policy)
+}
+
+// c18RunModelAfter: as c18RunModel, but the same Parser value has parsed *first (an input without errors, drained until
+// Done by the same consumer) before; only what the consumer sees of the second parse is recorded.
+func c18RunModelAfter(x *Exec, first *c18Input, in c18Input, policy int) c18Obs {
 	var o c18Obs
 	s := NewSched(x)
 	p := parser.NewParser(parser.NewDefaultConfig())
@@ -154,6 +161,9 @@ func c18RunModel(x *Exec, in c18Input, policy int) c18Obs {
 	s.NameChan(p.Errors, "Errors")
 	s.NameChan(p.Done, "Done")
 	s.Go("producer", func() {
+		if first != nil {
+			p.ParseStream(first.reader())
+		}
 		if in.isFile() {
 			p.ParseFile(in.File)
 		} else {
@@ -163,6 +173,12 @@ func c18RunModel(x *Exec, in c18Input, policy int) c18Obs {
 	})
 	var kept []*shared.ParserNode
 	s.Go("consumer", func() {
+		if first != nil {
+			for done := false; !done; {
+				i, _, _ := s.Select(selCase{Ch: p.Nodes}, selCase{Ch: p.Errors}, selCase{Ch: p.Done})
+				done = i == 2
+			}
+		}
 		// the documented receive loop (parser/example_test.go, TestParseWg), with the
 		// select expressed through the scheduler
 		for {
@@ -194,6 +210,7 @@ func c18RunModel(x *Exec, in c18Input, policy int) c18Obs {
 		}
 	}
 	o.Deadlock = s.Deadlock
+	o.Panics = s.Panics
 	o.Parked = s.ParkedAtEnd()
 	o.Trace = s.Trace
 	if s.Horizon {
@@ -258,17 +275,27 @@ func checkC18(w *Worker) {
 	type key struct{ in, pol int }
 	modelOutcomes := map[key]map[string]bool{}
 	modelDeadlock := map[key]bool{}
-	w.Explore("schedules", ExploreOpts{ShardDepth: 2}, func(x *Exec) {
+	var firsts []c18Input
+	for _, in := range inputs {
+		if in.Name == "empty" || in.Name == "1-records" || in.Name == "3-records" || in.Name == "three-records-with-notes" {
+			firsts = append(firsts, in)
+		}
+	}
+	var first *c18Input
+	one := func(x *Exec) {
 		ii := x.Choose(len(inputs), "input:input")
 		policy := x.Choose(2, "input:consumer") // 0: documented loop (stop at first error); 1: drain until Done
 		in := inputs[ii]
 		refEvents, refErr := c18Reference(in)
-		o := c18RunModel(x, in, policy)
+		o := c18RunModelAfter(x, first, in, policy)
 		obs := strings.Join(o.Events, " | ")
 		x.Obs(obs, fmt.Sprint(o.ConsumerDone, o.ProducerDone, o.Deadlock))
 		x.Case(fmt.Sprint(ii, policy, o.Trace), refErr != "" || len(refEvents) > 1)
 		x.Sample(map[string]interface{}{"input": in.Name, "consumer": []string{"stop at first error", "drain until Done"}[policy], "schedule": o.Trace, "consumer_saw": o.Events, "deadlock": o.Deadlock})
 		k := key{ii, policy}
+		if first != nil {
+			k = key{-1 - ii, policy} // (not part of the validation against real channels below)
+		}
 		if modelOutcomes[k] == nil {
 			modelOutcomes[k] = map[string]bool{}
 		}
@@ -277,8 +304,15 @@ func checkC18(w *Worker) {
 			modelDeadlock[k] = true
 		}
 		polName := []string{"stop-at-first-error", "drain-until-done"}[policy]
+		if first != nil {
+			polName = "second-use-of-a-parser|" + polName
+		}
 		rep := map[string]interface{}{"input": in.Name, "text": in.Text, "file": in.File, "fail_at": in.FailAt, "consumer": polName, "schedule": o.Trace, "consumer_saw": o.Events, "parked_at_end": o.Parked, "callback_parser_records": refEvents, "callback_parser_error": refErr}
 		ctx := fmt.Sprintf("input %s (%q%s), consumer %s, schedule %v\nconsumer saw: %v\ncallback parser: records %v, error %q", in.Name, in.Text, in.File, polName, o.Trace, o.Events, refEvents, refErr)
+		if len(o.Panics) > 0 {
+			x.Violate("C18|"+polName+"|panic-in-producer-or-consumer", ctx+"\npanic: "+strings.Join(o.Panics, "; "), rep)
+			return
+		}
 		if !o.ConsumerDone {
 			kind := "consumer-never-terminates"
 			if in.isFile() {
@@ -314,13 +348,22 @@ func checkC18(w *Worker) {
 		if policy == 1 && !o.ProducerDone {
 			x.Violate("C18|"+polName+"|producer-goroutine-left-blocked", ctx+"\nafter the consumer finished: "+strings.Join(o.Parked, "; "), rep)
 		}
+	}
+	w.Explore("schedules", ExploreOpts{ShardDepth: 2}, one)
+	// a Parser value used for a second input (the package's own benchmark does): every input again, after one of four
+	// error-free first inputs that the same consumer drained until Done
+	w.Explore("second-use-of-a-parser", ExploreOpts{ShardDepth: 3}, func(x *Exec) {
+		f := firsts[x.Choose(len(firsts), "event:first-input")]
+		first = &f
+		defer func() { first = nil }()
+		one(x)
 	})
 	// model validation: every (input, consumer) whose schedules all terminate is run free on real channels;
 	// the observation must be one the model produced
 	if w.Replay == nil {
 		validated := int64(0)
 		for k, outs := range modelOutcomes {
-			if modelDeadlock[k] {
+			if modelDeadlock[k] || k.in < 0 {
 				continue
 			}
 			ev, fin := c18RunReal(inputs[k.in], k.pol, 20*time.Second)
